@@ -33,12 +33,17 @@ def magicOf : String â†’ Nat
 
 /-- in-memory container (bit patterns at `dt`/`it`) â†’ `tc` at `dt2`/`it2` -/
 def toTc (dt dt2 it2 : Nat) (c : Container) : Container :=
-  convert (fun b => encF dt2 (decF dt b)) (fun i => i % 256 ^ it2) c
+  convert (cvData dt dt2) (cvIndex it2) c
 
 /-- serialize at (dt2, it2), deserialize with `rmagic`, convert back; all abort points of the C++ -/
 def binRoundTrip (t : Tag) (rmagic dt it dt2 it2 : Nat) (c : Container) : Except String (Nat Ã— Bytes Ã— Container) :=
   if assignAborts (dt == dt2) (it == it2) c then .error "ABORT" else
   let tc := toTc dt dt2 it2 c
+  -- the decidable hypotheses of `C05.binary_roundtrip_across_widths`, evaluated on every case: a case that
+  -- violates them can never agree with the implementation, so the check fails instead of leaving the theorem
+  -- inapplicable unnoticed
+  if !(ImageOK t dt2 it2 tc && Representable (cvData dt dt2) (cvIndex it2) (cvData dt2 dt) id c) then
+    .error "HYP-FAIL ImageOK/Representable" else
   match serialize t dt2 it2 tc with
   | none => .error "OVERRUN"
   | some b =>
@@ -46,7 +51,7 @@ def binRoundTrip (t : Tag) (rmagic dt it dt2 it2 : Nat) (c : Container) : Except
     | none => .error "ABORT"
     | some r =>
       if assignAborts (dt == dt2) (it == it2) r then .error "ABORT" else
-      .ok (serializedSize dt2 it2 tc, b, convert (fun x => encF dt (decF dt2 x)) id r)
+      .ok (serializedSize dt2 it2 tc, b, convert (cvData dt2 dt) id r)
 
 def encList (w : Nat) (l : List Rat) : List Nat := l.map (encF w)
 
@@ -83,18 +88,24 @@ def rawP (dt : Nat) : P Container := do
 def dec (w : Nat) (l : List Nat) : List Rat := l.map (decF w)
 
 /-- text round trip of one kind: (written lines, read-back layout) or an abnormal outcome -/
-def txtRoundTrip (kind mode : String) (dt : Nat) : P (Except String (Container Ã— List String Ã— Container)) := do
+def txtRoundTrip (exact : Bool) (kind mode : String) (dt : Nat) :
+    P (Except String (Container Ã— List String Ã— Container)) := do
+  -- `exact`: the decidable hypotheses of the `â€¦_exact` text theorems (`Exact7` for every value, `CsrWF` for CSR)
+  -- are evaluated on every case of the exact stream
+  let hyp (v : List Rat) : Bool := !exact || v.all Exact7
   let pr := sci6
   let rd := parseSci
   match kind, mode with
   | "dv", "mtx" =>
     let v â† ratList
+    if !(hyp v) then pure (.error "HYP-FAIL Exact7") else
     let lines := dvMtxWrite pr v
     match dvMtxRead rd lines with
     | none => pure (.error "ABORT")
     | some r => pure (.ok (dvLayout (encList dt v), lines, dvLayout (encList dt r)))
   | "dv", "exp" =>
     let v â† ratList
+    if !(hyp v) then pure (.error "HYP-FAIL Exact7") else
     let lines := expWrite pr v
     let r := expRead rd lines
     -- an empty file gives a vector without array (fix 80716f0b5)
@@ -102,12 +113,14 @@ def txtRoundTrip (kind mode : String) (dt : Nat) : P (Except String (Container Ã
       { scalarIndex := [r.length], scalarDt := [], elements := if r.isEmpty then [] else [encList dt r], indices := [] }))
   | "dvb", "mtx" =>
     let v â† ratList
+    if !(hyp v) then pure (.error "HYP-FAIL Exact7") else
     let lines := dvMtxWrite pr v
     match dvMtxRead rd lines with
     | none => pure (.error "ABORT")
     | some r => pure (.ok (dvbLayout 2 (encList dt v), lines, dvbLayout 2 (encList dt r)))
   | "dvb", "exp" =>
     let v â† ratList
+    if !(hyp v) then pure (.error "HYP-FAIL Exact7") else
     let lines := expWrite pr v
     let r := expRead rd lines
     -- an empty file gives a vector without array (fix 35c268b8a)
@@ -115,6 +128,7 @@ def txtRoundTrip (kind mode : String) (dt : Nat) : P (Except String (Container Ã
       { scalarIndex := [r.length / 2], scalarDt := [], elements := if r.isEmpty then [] else [encList dt r], indices := [] }))
   | "sv", "mtx" =>
     let n â† nat; let _ â† nat; let idx â† natList; let v â† ratList
+    if !(hyp v) then pure (.error "HYP-FAIL Exact7") else
     let lines := svMtxWrite pr n idx v
     match svMtxRead rd lines with
     | none => pure (.error "ABORT")
@@ -123,15 +137,30 @@ def txtRoundTrip (kind mode : String) (dt : Nat) : P (Except String (Container Ã
       pure (.ok (svLayout n idx (encList dt v), lines, svLayout rn ri (encList dt rv)))
   | "dm", "mtx" =>
     let r â† nat; let c â† nat; let v â† ratList
+    if !(hyp v) then pure (.error "HYP-FAIL Exact7") else
     let lines := dmMtxWrite pr r c v
     match dmMtxRead rd lines with
     | none => pure (.error "ABORT")
     | some (rr, rc, rv) => pure (.ok (dmLayout r c (encList dt v), lines, dmLayout rr rc (encList dt rv)))
   | "csr", "mtx" =>
     let r â† nat; let c â† nat; let variant â† nat; let rp â† natList; let ci â† natList; let v â† ratList
+    if !(hyp v) then pure (.error "HYP-FAIL Exact7") else
+    if exact && !(decide (CsrWF r rp ci v 0)) then pure (.error "HYP-FAIL CsrWF") else
     let orig := csrLayout variant { rows := r, cols := c, rowPtr := rp, colInd := ci, vals := encList dt v }
     if orig.indices.isEmpty then pure (.error "SIGNAL") else
     let lines := csrMtxWrite pr r c rp ci v 0
+    match csrMtxRead rd lines with
+    | none => pure (.error "ABORT")
+    | some (rr, rc, ue, rrp, rci, rv) =>
+      pure (.ok (orig, lines,
+        { scalarIndex := [rr * rc, rr, rc, ue], scalarDt := [], elements := [encList dt rv], indices := [rci, rrp] }))
+  | "bcsr", "mtx" =>
+    -- BCSR has a MatrixMarket writer only; the file is read back as the scalar CSR matrix
+    let r â† nat; let c â† nat; let rp â† natList; let ci â† natList; let v â† ratList
+    if !(hyp v) then pure (.error "HYP-FAIL Exact7") else
+    let orig := bcsrLayout 2 3 r c rp ci (encList dt v)
+    if orig.indices.isEmpty then pure (.error "SIGNAL") else
+    let lines := bcsrMtxWrite pr 2 3 r c rp ci v 0
     match csrMtxRead rd lines with
     | none => pure (.error "ABORT")
     | some (rr, rc, ue, rrp, rci, rv) =>
@@ -198,9 +227,11 @@ def handle : P String := do
   | "txt" | "txtr" =>
     let kind â† tok; let mode â† tok
     let dt â† nat; let _ â† nat
-    match (â† txtRoundTrip kind mode dt) with
+    match (â† txtRoundTrip (op == "txt") kind mode dt) with
     | .error e => pure e
-    | .ok (c, lines, r) => pure s!"L {showDump dt c} T {showText lines} {showDump dt r} EQ {eqFlag c r}"
+    | .ok (c, lines, r) =>
+      if kind = "bcsr" then pure s!"L {showDump dt c} T {showText lines} {showDump dt r}"
+      else pure s!"L {showDump dt c} T {showText lines} {showDump dt r} EQ {eqFlag c r}"
   | "dfio" =>
     let sh â† tok; let bf â† tok
     let shared := if sh = "-" then [] else unhex sh.toList
